@@ -25,6 +25,7 @@ Definition id_c : ident := 3%positive.
 Definition id_x : ident := 4%positive.   (* coordinate_dofs *)
 Definition id_e : ident := 5%positive.   (* entity_local_index *)
 Definition id_p : ident := 6%positive.   (* quadrature_permutation *)
+Definition id_I : ident := 7%positive.   (* the imaginary unit of <complex.h> *)
 
 Definition is_input (x : ident) : bool :=
   (Pos.eqb x id_w || Pos.eqb x id_c || Pos.eqb x id_x || Pos.eqb x id_e || Pos.eqb x id_p)%bool.
